@@ -208,6 +208,62 @@ def _union_job(job):
     return acc
 
 
+def _subtree_job(job):
+    """one top-level tree: include and exclude range over ALL subsets of its nodes (a block of include subsets per job); valid() and, for every
+    node of the tree, match().  Categories of different trees cannot interact in the documented rule, so this settles sets of any size tree by tree."""
+    root, lo, hi, tier = job
+    acc = Acc()
+    nodes = sorted(catref.DESC[root])
+    n = len(nodes)
+    closure = [0] * n                                   # bit masks of descendant-or-self
+    for i, a in enumerate(nodes):
+        for j, b in enumerate(nodes):
+            if b in catref.DESC[a]:
+                closure[i] |= 1 << j
+    cats = [TC[x] for x in nodes]
+
+    def close(mask):
+        out = 0
+        for i in range(n):
+            if mask >> i & 1:
+                out |= closure[i]
+        return out
+
+    for im in range(lo, hi):
+        if tier != 'thorough' and n > 7 and bin(im).count('1') > 2 and im != (1 << n) - 1:
+            continue
+        inc = {cats[i] for i in range(n) if im >> i & 1}
+        cin = close(im)
+        for em in range(1 << n):
+            exc = {cats[i] for i in range(n) if em >> i & 1}
+            exp = cin & ~close(em)
+            r = _call(TC.valid, include=set(inc), exclude=set(exc))
+            acc.count('transitions')
+            acc.count('evaluations')
+            if bin(em).count('1') > 2:
+                acc.nontriv(('subtree', root, im, em))
+            got = r
+            if r[0] == 'ok':
+                try:
+                    got = sum(1 << nodes.index(c.name) for c in r[1])
+                except ValueError:
+                    got = ('outside-the-tree', sorted(c.name for c in r[1]))
+            acc.outcome((root, got if isinstance(got, int) else repr(got)))
+            if got != exp:
+                acc.violation(Viol('valid', 'differs-from-documented-tree',
+                                   {'q': 'valid', 'include': sorted(c.name for c in inc), 'exclude': sorted(c.name for c in exc)},
+                                   sorted(nodes[i] for i in range(n) if exp >> i & 1), repr(got)[:200]))
+            for ti in range(n):
+                expm = bool(closure[ti] & exp)
+                rm = _call(TC.match, cats[ti], include=set(inc), exclude=set(exc))
+                acc.count('transitions')
+                gotm = bool(rm[1]) if rm[0] == 'ok' else rm
+                if gotm != expm:
+                    acc.violation(Viol('match', 'differs-from-documented-tree',
+                                       {'q': 'match', 'target': nodes[ti], 'include': sorted(c.name for c in inc), 'exclude': sorted(c.name for c in exc)}, expm, gotm))
+    return acc
+
+
 def check_invalid(acc):
     """non-category members are rejected rather than silently accepted (part of 'selection' being well defined)"""
     for kw in ({'include': {'PITCH'}}, {'exclude': ['x']}, {'include': 3}):
@@ -281,7 +337,7 @@ def _history_job(job):
 
 def run(ctx):
     ctx.rule = ('exhaustive grids: 37 categories (children/nodes/leaves), 37x37 is_child, (None + 704 sets of size<=2) x '
-                '(None + 704) for valid, match over 37 targets, all 2^16 unions of top-level categories; '
+                '(None + 704) for valid, match over 37 targets, all 2^16 unions of top-level categories, all subsets x all subsets inside each top-level tree; '
                 'non-trivial = descendant relation holds strictly / selection strictly between empty and the include closure')
     ctx.bounds = {'categories': 37, 'sets_of_size_le_2': len(SETS), 'top_level': len(catref.TOP)}
     ctx.assumptions = ['documented tree = the tree printed in README.md, transcribed by hand in kv/catref.py']
@@ -294,6 +350,15 @@ def run(ctx):
     step = 512
     ctx.pmap(_union_job, [(lo, min(lo + step, 1 << ntop), excs) for lo in range(0, 1 << ntop, step)], chunksize=1)
     ctx.pmap(_history_job, [(lo, lo + 3) for lo in range(0, 37, 3)], chunksize=1)
+    sjobs = []
+    for root in catref.TOP:
+        n = len(catref.DESC[root])
+        if n > 1:
+            blk = max(1, (1 << n) // 64)
+            sjobs += [(root, lo, min(lo + blk, 1 << n), ctx.tier) for lo in range(0, 1 << n, blk)]
+    ctx.pmap(_subtree_job, sjobs, chunksize=1)
+    ctx.bounds['subtree_subsets'] = ('every include subset x every exclude subset of each top-level tree' if not ctx.quick else
+                                    'every exclude subset x include subsets of size <= 2 (all include subsets for trees of <= 7 nodes)')
     ctx.count('traces', ctx.n.get('evaluations', 0))
 
 
